@@ -528,7 +528,7 @@ theorem refs_approx : ∀ (refs : List Reference) (i : Nat), wfRefIndex i refs =
   | r :: rs, i, h => by
     simp only [wfRefIndex, Bool.and_eq_true, beq_iff_eq] at h
     simp only [List.map_cons, PolyVerif.GbLayout.toRefs, listApprox, refApprox, toRRef, Bool.and_eq_true, beq_iff_eq,
-      refs_approx rs (i + 1) h.2, and_true, ofNat_eq_itoa]
+      refs_approx rs (i + 1) h.2, and_true, ofNat_eq_itoa, PolyVerif.GbLayout.refNumber, ↓reduceIte]
     exact h.1
 
 theorem feats_approx : ∀ fs : List Feature,
